@@ -46,7 +46,7 @@ class C15(Check):
                                           mag=f(0.001, 0.05), steps=st.integers(1, 5), seed=st.integers(0, 10 ** 6)))
         return st.fixed_dictionaries(dict(spec=GL.lens_spec(OPT, min_surfs=2), operands=st.lists(operand, min_size=1, max_size=3),
                                           perts=st.lists(pert, min_size=1, max_size=4),
-                                          comp=st.sampled_from(['none', 'none', 'thickness', 'radius']),
+                                          comp=st.sampled_from(['none', 'none', 'thickness', 'radius', 'asphere']),
                                           method=st.sampled_from(['generic', 'least_squares']),
                                           mode=st.sampled_from(['sensitivity', 'monte_carlo', 'monte_carlo']),
                                           iters=st.integers(1, 6), pickup=st.booleans()))
@@ -94,7 +94,8 @@ class C15(Check):
                 kw['axis'] = pd_['axis']
             cand = [k for k in cand if (vt, k, kw.get('axis')) not in used and not (case['comp'] == 'radius' and vt == 'radius'
                                                                                       and k == self.comp_surface)
-                    and not (self.pick and vt == 'radius' and k in self.pick)]
+                    and not (self.pick and vt == 'radius' and k in self.pick)
+                    and not (vt == 'asphere_coeff' and self.comp_asphere == k)]
             if not cand:
                 continue
             k = cand[pd_['s'] % len(cand)]
@@ -108,7 +109,12 @@ class C15(Check):
             samp = pd_['sampler']
             if mode == 'sensitivity' and samp not in ('nominal', 'fail'):
                 samp = 'range'
-            out.append((vt, kw, nominal, samp, span, pd_['steps'], pd_['seed']))
+            seed = pd_['seed']
+            if samp in ('normal', 'uniform'):
+                # "seed the first sampler only" is a reproducible set-up too: the samplers share numpy's global generator
+                if any(p[3] in ('normal', 'uniform') for p in out) and seed % 3 == 0:
+                    seed = None
+            out.append((vt, kw, nominal, samp, span, pd_['steps'], seed))
         return out
 
     @staticmethod
@@ -159,6 +165,9 @@ class C15(Check):
         o = build(spec)
         K = len(spec['surfs'])
         self.comp_surface = None
+        asp_ = [k for k in range(1, K + 1) if spec['surfs'][k - 1]['type'] == 'even_asphere' and
+                len(spec['surfs'][k - 1]['coef'] or []) >= 2]
+        self.comp_asphere = asp_[-1] if (case['comp'] == 'asphere' and asp_) else None
         fin = [k for k in range(1, K + 1) if spec['surfs'][k - 1]['R'] != GL.INF]
         if case['comp'] == 'radius' and fin:
             self.comp_surface = fin[-1]
@@ -189,6 +198,12 @@ class C15(Check):
         elif case['comp'] == 'radius' and self.comp_surface:
             with contextlib.redirect_stdout(io.StringIO()):
                 tol.add_compensator('radius', surface_number=self.comp_surface)
+        elif case['comp'] == 'asphere':
+            asp = [k for k in range(1, K + 1) if spec['surfs'][k - 1]['type'] == 'even_asphere' and
+                   len(spec['surfs'][k - 1]['coef'] or []) >= 2]
+            if asp:
+                with contextlib.redirect_stdout(io.StringIO()):
+                    tol.add_compensator('asphere_coeff', surface_number=asp[-1], coeff_number=1)
         return o, tol, plan
 
     def run(self, case, tol):
